@@ -604,6 +604,23 @@ fn cut_sweep(ctx: &Ctx, rep: &mut Report) {
     ] {
         seqs.push(s.to_string());
     }
+    // every number of colon-separated parts 1..=10 in a parameter that selects a colour (the
+    // table has six places per parameter), before and after another parameter
+    for g in ["38", "48"] {
+        for parts in 1..=10usize {
+            for sel in ["2", "5"] {
+                let mut v: Vec<String> = vec![g.to_string(), sel.to_string()];
+                for i in 0..parts.saturating_sub(2) {
+                    v.push(if sel == "2" && i == 0 { String::new() } else { format!("{}", 10 * (i + 1) % 256) });
+                }
+                v.truncate(parts.max(1));
+                seqs.push(format!("\x1b[{}m", v.join(":")));
+                seqs.push(format!("\x1b[1;{};4m", v.join(":")));
+            }
+        }
+    }
+    seqs.sort();
+    seqs.dedup();
     let prefixes = ["", "ab\r\n\x1b[1;31mc", "\x1b[?1049hq"];
     let (cols, rows) = (6usize, 3usize);
     let mut n = 0u64;
@@ -664,10 +681,63 @@ fn cut_sweep(ctx: &Ctx, rep: &mut Report) {
     println!("part every-cut-position: {} sequences, {} cuts", seqs.len(), n);
 }
 
+/// Runs of EVERY length: on one very wide row (20 010 columns; thorough 40 010) a run of n
+/// cells in one pen followed by W - n untouched blanks and a letter below, for every n - the
+/// dump, fed to a fresh terminal, gives the same cells, wrap marks and cursor. (However the
+/// dump abbreviates runs, every run length up to the width passes through it, twice.)
+fn runs_of_every_length(ctx: &Ctx, rep: &mut Report) {
+    use rayon::prelude::*;
+    let w: usize = ctx.tier.pick(20_010, 40_010);
+    let ns: Vec<usize> = (1..w).collect();
+    let bad: Vec<(usize, String)> = ns
+        .par_iter()
+        .filter_map(|&n| {
+            let r = crate::engine::guarded(|| {
+                let mut a = build_vt(w, 2, Some(0));
+                let _ = a.feed_str(&format!("\x1b[41m\x1b[{}X\x1b[m\x1b[2;1Hz", n.min(65535)));
+                if n > 65535 {
+                    return None;
+                }
+                let d = a.dump();
+                let mut b = build_vt(w, 2, Some(0));
+                let _ = b.feed_str(&d);
+                let (ca, cb) = (a.cursor(), b.cursor());
+                if (ca.col, ca.row, ca.visible) != (cb.col, cb.row, cb.visible) {
+                    return Some(format!("cursor ({}, {}) became ({}, {})", ca.col, ca.row, cb.col, cb.row));
+                }
+                for (i, (la, lb)) in a.view().iter().zip(b.view().iter()).enumerate() {
+                    if la != lb {
+                        return Some(match la.cells().iter().zip(lb.cells().iter()).position(|(x, y)| x != y) {
+                            Some(k) => format!("row {}: first differing cell at column {}", i, k),
+                            None => format!("row {}: same cells, another length ({} / {}) or wrap mark", i, la.len(), lb.len()),
+                        });
+                    }
+                }
+                None
+            });
+            match r {
+                Ok(None) => None,
+                Ok(Some(d)) => Some((n, d)),
+                Err(m) => Some((n, format!("panic: {}", m))),
+            }
+        })
+        .collect();
+    let n = ns.len() as u64;
+    rep.evaluations += n;
+    rep.traces_validated += n;
+    rep.parts.push(serde_json::json!({"part":"runs-of-every-length","width":w,"runs":n,"violating":bad.len()}));
+    println!("part runs-of-every-length: {} run lengths on a {}-column row, {} violating", n, w, bad.len());
+    if let Some((k, d)) = bad.iter().min_by_key(|x| x.0) {
+        emit_violation(ctx, rep, "C11", serde_json::json!({"part":"runs-of-every-length","width":w,"run":k,"oracle":"dump-roundtrip","observed":format!("{} columns, a run of {} cells in one pen then {} blanks: after the round trip {}", w, k, w - k, d)}));
+        rep.violations += bad.len() as u64 - 1;
+    }
+}
+
 pub fn run(ctx: &Ctx) -> Report {
     let mut rep = Report::new();
     pen_encodings(ctx, &mut rep);
     cut_sweep(ctx, &mut rep);
+    runs_of_every_length(ctx, &mut rep);
     let sa = SysA { sys: make(&ctx.known), conts: &conts_full };
     let sb = SysA { sys: make(&ctx.known), conts: &conts_deep };
     let (full, deep) = parts!(ctx.tier, &sa, &sb);
@@ -709,6 +779,13 @@ pub fn replay(ctx: &Ctx, v: &Value) -> bool {
         let _ = b.feed_str(p);
         println!("original {:?} / restored {:?}", obs(&vt).rows, obs(&b).rows);
         return obs(&vt) != obs(&b);
+    }
+    if v["part"] == "runs-of-every-length" {
+        let tier = if v["tier"] == "thorough" { Tier::Thorough } else { Tier::Quick };
+        let c2 = Ctx { id: ctx.id.clone(), tier, seed: 0, start: ctx.start, known: ctx.known.clone(), replay_dir: ctx.replay_dir.clone() };
+        let mut rep = Report::new();
+        runs_of_every_length(&c2, &mut rep);
+        return rep.violations > 0;
     }
     if v["part"] == "every-cut-position" {
         let (head, tail) = (v["input_raw"].as_str().unwrap(), v["probe_raw"].as_str().unwrap());
